@@ -125,6 +125,7 @@ SIM_SCENARIO(scen_c16, "c16", "C16", 6000000, 30000) {
             sum += allot[i];
             SIM_CHECK(allot[i] >= 0 && allot[i] <= maxw[i], "oracle:allotment", "an arena was granted %d workers but requested only %d", allot[i], maxw[i]);
         }
+        hx::check_mandatory_allotment(soft, mand, total, n, level, minw, maxw, allot);
         SIM_CHECK(sum <= want, "oracle:allotment", "%d workers granted in total, min(total demand %d, limit %d) is %d", sum, total, limit, want);
         if (sum != want)
             sim::fail("oracle:allotment-sum", "workers granted to arenas sum to %d, min(total demand %d, limit %d) is %d (soft limit %d, mandatory requests %d, %d arenas)", sum, total, limit, want, soft, mand, n);
